@@ -125,6 +125,8 @@ def scenarios(root):
         os.symlink(os.path.join("..", canon.job_id(BY[0]), "top.txt"),
                    os.path.join(t, "P", "workspace", canon.job_id(OLD), "link_to_bystander.txt"))
     add("remove", "remove", setup_with_link, lambda j: j.remove())
+    # ... through a handle that has already used the job's document
+    add("remove-after-doc-access", "remove", setup_with_link, lambda j: (j.doc.get("who"), j.remove()))
     add("clear", "clear", setup_with_link, lambda j: j.clear())
     add("reset", "clear", setup_with_link, lambda j: j.reset())
     return S
@@ -142,7 +144,7 @@ def _swallow(fn):
 QUICK = ["init-fresh", "init-corrupt-file", "doc-access-initialises", "rekey-set-dest-absent", "rekey-assign-dest-absent",
          "rekey-assign-dest-initialised", "rekey-assign-dest-empty-dir", "move-dest-absent", "move-dest-initialised",
          "clone-dest-absent", "clone-dest-initialised", "remove", "clear", "reset", "rekey-update-two-keys",
-         "rekey-set-persistent-cache"]
+         "rekey-set-persistent-cache", "remove-after-doc-access"]
 
 
 def applicable(op):
